@@ -211,6 +211,9 @@ class AuthTrace:
                 raise
         F.run_tape = rt
 
+        tr.opstack = []
+        tr.deep = []
+
         def wrap(name, fn):
             def w(tape, stack, cache):
                 cur = tr.scripts[-1] if tr.scripts else None
@@ -219,11 +222,31 @@ class AuthTrace:
                 r0 = cur['returns'] if cur is not None else 0
                 if cur is not None and name == 'OP_RETURN':
                     cur['returns'] += 1
+                    # a RETURN whose enclosing instructions are only IF / IF_ELSE / TRY_EXCEPT bodies (which hand it on) ends the script
+                    if all(fr_['name'] in ('OP_IF', 'OP_IF_ELSE', 'OP_TRY_EXCEPT') for fr_ in tr.opstack):
+                        cur['must_end'] = True
+                    # ... and, at any depth, it ends every tape on the way out as far as the bodies around it hand it on
+                    for fr_ in reversed(tr.opstack):
+                        if fr_['name'] in ('OP_IF', 'OP_IF_ELSE', 'OP_TRY_EXCEPT'):
+                            fr_['must_end'] = True
+                        else:
+                            break
+                if is_top:
+                    cur['must_end'] = cur.get('must_end', False) if name == 'OP_RETURN' else False
+                fr = dict(name=name, must_end=False)
+                tr.opstack.append(fr)
+                ok_ = False
                 try:
-                    return fn(tape, stack, cache)
+                    r_ = fn(tape, stack, cache)
+                    ok_ = True
+                    return r_
                 finally:
+                    tr.opstack.pop()
+                    if ok_ and fr['must_end'] and tape.pointer != len(tape.data) and len(tr.deep) < 3:
+                        tr.deep.append('a RETURN executed inside %s (offset %d of the tape %s) with nothing but IF / IF_ELSE / TRY / EXCEPT bodies between them, '
+                                       'yet that tape went on at offset %d of %d' % (name, p0, tape.data.hex()[:80], tape.pointer, len(tape.data)))
                     if is_top:
-                        cur['spans'].append((p0, tape.pointer, name, r0, cur['returns']))
+                        cur['spans'].append((p0, tape.pointer, name, r0, cur['returns'], bool(cur.get('must_end'))))
             return w
         for k, (n, fn) in list(F.opcodes.items()):
             F.opcodes[k] = (n, wrap(n, fn))
@@ -296,7 +319,11 @@ def c01_direct(scripts, cache_vals, cfg):
             continue
         data = s['tape'].data
         pos = 0
-        for a, b, name, r0, r1 in s['spans']:
+        for a, b, name, r0, r1, must_end in s['spans']:
+            if must_end and b != s['n'] and not s['raised']:
+                out.append('script %d: a RETURN executed inside %s at offset %d with nothing but IF / IF_ELSE / TRY / EXCEPT bodies around it, '
+                           'yet the script went on at offset %d of %d' % (k, name, a, b, s['n']))
+                break
             if a != pos:
                 out.append('script %d: top-level execution not contiguous at offset %d (expected %d)' % (k, a, pos))
                 break
@@ -310,6 +337,7 @@ def c01_direct(scripts, cache_vals, cfg):
         else:
             if pos != s['n']:
                 out.append('script %d: stopped at offset %d of %d' % (k, pos, s['n']))
+    out += [t_ for t_ in getattr(tr, 'deep', []) if not any(t_[:60] == o_[:60] for o_ in out)][:2]
     # what a later script inherits: the call budget already spent, the definitions, the limit
     for k in range(1, len(tr.scripts)):
         a, b = tr.scripts[k - 1], tr.scripts[k]
@@ -855,10 +883,34 @@ def c03_task(task):
         match = any(all(val[i][p[i]] for i in range(m)) for p in itertools.permutations(range(nk), m))
         distinct = len(set(sigs)) == len(sigs)
         exp = match and distinct
+        second = None
+        if m >= 1 and not ver and not bad_flag and rng.random() < 0.15:
+            # the same signatures and keys checked a SECOND time in the same run, under an operand that permits nothing, or over
+            # changed fields: what the first check found must not be remembered
+            if any(len(s_) == 65 and s_[-1] for s_ in sigs) and rng.random() < 0.6:
+                second = ('flags', op('POP0') + b''.join(push(s_) for s_ in sigs) + b''.join(push(k_) for k_ in keys) + op('CHECK_MULTISIG') + bytes([0, m, nk]))
+            else:
+                second = ('fields', op('POP0') + push(b'changed') + op('WRITE_CACHE') + b'\x01Z\x01' + b''.join(push(s_) for s_ in sigs) +
+                          b''.join(push(k_) for k_ in keys) + op('CHECK_MULTISIG') + bytes([allowed, m, nk]))
+            script = script + second[1]
         st, iline, mline = tsh.compare_script(model, script, sf, cfg)
         stats[st] += 1
         digests.add(hashlib.sha256(script).digest()[:8])
         case = dict(script=script.hex(), cache=tsh.cache_str(sf, False), cfg=cfg.to_json(), m=m, n=nk)
+        if second is not None:
+            f2 = iline.split(' | ')
+            stats['second-check-' + second[0]] += 1
+            if second[0] == 'flags' and f2[0] == 'done' and f2[3].split(',')[-1] == 'ff':
+                stats['direct-fail'] += 1
+                if len(viol) < 8:
+                    viol.append(dict(what='the same flagged signatures checked again under allowed flags 00 gave true (expected an error: never true)', case=case))
+            if second[0] == 'fields' and (f2[0] == 'done') and (f2[3].split(',')[-1] == 'ff') != bool(exp):
+                stats['direct-fail'] += 1
+                if len(viol) < 8:
+                    viol.append(dict(what='the second CHECK_MULTISIG of one run gave %s, the first %s (same signatures, keys, fields)' % (f2[3].split(',')[-1], exp), case=case))
+            if st == 'differ' and len(dis) < 5:
+                dis.append(dict(case=case, impl=iline[:500], model=mline[:500]))
+            continue
         if st == 'differ' and len(dis) < 5:
             dis.append(dict(case=case, impl=iline[:500], model=mline[:500]))
         f_ = iline.split(' | ')
